@@ -15,7 +15,7 @@ use simplicity::jet::Elements;
 use simplicity::{BitIter, RedeemNode};
 
 pub const SPEC: Spec = Spec {
-    rule: "Elements family only. mode valid: the (program, witness) encoding of a generated well-typed program with all combinator kinds (and, when it runs in a minimal environment, of its pruned form); mode mutate: 1-4 byte-level mutations of such an encoding (bit flip, overwrite, truncate, extend, splice, insert, delete; program or witness); mode raw: arbitrary bytes. Oracle (differential against the vendored C pipeline: decodeMallocDag, closeBitstream, mallocTypeInference, fillWitnessData, closeBitstream, computeAnnotatedMerkleRoot, verifyNoDuplicateIdentityHashes, analyseBounds, 1->1 check): RedeemNode::decode::<Elements> is Ok exactly when C accepts, except C FailCode (designed) and C Malloc/ExecMemory refusals (outside libsimplicity's limits, counted); when both accept, cmr/amr/ihr are byte-identical and bounds().cost equals the C cost bound whenever analyseBounds(CELLS_MAX) succeeds. Inputs whose declared node count cannot fit in the available bits are only given to Rust (the C decoder allocates from the length prefix). Non-trivial: both accept and >= 6 nodes. Distinct by input bytes.",
+    rule: "Elements family only. mode valid: the (program, witness) encoding of a generated well-typed program with all combinator kinds (and, when it runs in a minimal environment, of its pruned form); mode mutate: 1-4 byte-level mutations of such an encoding (bit flip, overwrite, truncate, extend, splice, insert, delete; program or witness); mode raw: arbitrary bytes; mode inner-type duplicate: a hand-assembled DAG with two unshared nodes of one identity hash whose inner types (and annotated roots) differ, and its canonical twin. Oracle (differential against the vendored C pipeline: decodeMallocDag, closeBitstream, mallocTypeInference, fillWitnessData, closeBitstream, computeAnnotatedMerkleRoot, verifyNoDuplicateIdentityHashes, analyseBounds, 1->1 check): RedeemNode::decode::<Elements> is Ok exactly when C accepts, except C FailCode (designed) and C Malloc/ExecMemory refusals (outside libsimplicity's limits, counted); when both accept, cmr/amr/ihr are byte-identical and bounds().cost equals the C cost bound whenever analyseBounds(CELLS_MAX) succeeds. Inputs whose declared node count cannot fit in the available bits are only given to Rust (the C decoder allocates from the length prefix). Non-trivial: both accept and >= 6 nodes. Distinct by input bytes.",
     design_ref: "§6 C03",
     max_len: 1500,
     quick_cases: 30_000,
@@ -165,8 +165,23 @@ pub fn gen_pinned_witness_program(cx: &mut Case) -> super::c01::Generated {
 }
 
 pub fn case(cx: &mut Case) -> CaseResult {
-    let mode = cx.src.weighted(&[4, 5, 2]);
+    let mode = cx.src.weighted(&[40, 50, 3, 20]);
     if mode == 2 {
+        // hand-assembled: two unshared nodes with one identity hash whose inner types differ
+        // (annotated roots differ), and the canonical twin; C decides both
+        cx.label("mode: equal identity hash, different inner types");
+        let mut s = cx.src.clone();
+        let (neg, twin, desc) = super::c02::inner_type_duplicate(&mut s, Family::Elements);
+        cx.src = s;
+        cx.fp.write(&neg);
+        cx.set_sample(|| json!({"mode": "inner-type duplicate", "program": hex(&neg), "twin": hex(&twin), "shape": desc}));
+        compare(cx, &twin, &[], "twin of inner-type duplicate")?;
+        if !cx.nontrivial {
+            return Err(harness_error(format!("canonical twin of an inner-type duplicate is not accepted by both sides: {} ({})", hex(&twin), desc)));
+        }
+        return compare(cx, &neg, &[], "inner-type duplicate");
+    }
+    if mode == 3 {
         cx.label("mode: raw bytes");
         let split = cx.src.u8();
         let rest = cx.src.rest().to_vec();
